@@ -188,10 +188,50 @@ def split_at_loop(fi: FuncInfo, which: int = 0, kind=(ast.For, ast.While)):
     if len(idxs) <= which:
         raise AnalysisError(f"{fi.qualname}: expected a top-level loop #{which} - shape not recognised")
     k = idxs[which]
-    return body[:k], body[k], body[k + 1:]
+    return body[:k], normalise_while(fi, body[k]), body[k + 1:]
 
 
 _DESUGARED: Dict[int, list] = {}
+_NORMAL_WHILE: Dict[int, ast.While] = {}
+
+
+def normalise_while(fi: FuncInfo, loop):
+    """`while T: if C1: break; if C2: break; BODY`  ==>  `while T and not C1 and not C2: BODY` (the tests are pure
+    expressions evaluated in the same order; a `while True` keeps only the folded tests).  Exits written as guard
+    clauses at the top of the body are the loop condition; writing them there lets the loop rules read it."""
+    from ..model import keep
+    if not isinstance(loop, ast.While) or loop.orelse:
+        return loop
+    if id(loop) in _NORMAL_WHILE:
+        return _NORMAL_WHILE[id(loop)]
+    k = 0
+    tests = []
+    while k < len(loop.body):
+        st = loop.body[k]
+        if isinstance(st, ast.If) and not st.orelse and len(st.body) == 1 and isinstance(st.body[0], ast.Break) \
+                and not any(isinstance(n, (ast.Call, ast.NamedExpr)) and not _pure_call(n) for n in ast.walk(st.test)):
+            tests.append(st.test)
+            k += 1
+        else:
+            break
+    if not tests or k == len(loop.body):
+        return loop
+    parts = [] if (isinstance(loop.test, ast.Constant) and loop.test.value is True) else [loop.test]
+    parts += [ast.UnaryOp(op=ast.Not(), operand=t) for t in tests]
+    test = parts[0] if len(parts) == 1 else ast.BoolOp(op=ast.And(), values=parts)
+    new = ast.While(test=test, body=loop.body[k:], orelse=[])
+    ast.copy_location(new, loop)
+    ast.fix_missing_locations(new)
+    keep(new)
+    for n in ast.walk(new):
+        if id(n) not in fi.module.node_scope:
+            fi.module.node_scope[id(n)] = fi.scope
+    _NORMAL_WHILE[id(loop)] = new
+    return new
+
+
+def _pure_call(n) -> bool:
+    return isinstance(n, ast.Call) and isinstance(n.func, ast.Name) and n.func.id in ("len", "abs", "min", "max", "int", "float")
 
 
 def desugar_comprehensions(fi: FuncInfo) -> list:
@@ -211,7 +251,33 @@ def desugar_comprehensions(fi: FuncInfo) -> list:
             bound_elsewhere[n.id] = bound_elsewhere.get(n.id, 0) + 1
     for a in fi.node.args.args + fi.node.args.kwonlyargs:
         bound_elsewhere[a.arg] = bound_elsewhere.get(a.arg, 0) + 1
+    def _register(new, st):
+        for nn in new:
+            for sub in ast.walk(nn):
+                if isinstance(sub, (ast.expr, ast.stmt)):
+                    ast.copy_location(sub, st)
+            ast.fix_missing_locations(nn)
+            keep(nn)
+            for sub in ast.walk(nn):
+                fi.module.node_scope[id(sub)] = fi.scope
     for st in fi.node.body:
+        # `L.extend(E for v in IT if C)` (generator or list comprehension)  ==>  `for v in IT: (if C:) L.append(E)`
+        if isinstance(st, ast.Expr) and isinstance(st.value, ast.Call) and isinstance(st.value.func, ast.Attribute) and st.value.func.attr == "extend" \
+                and isinstance(st.value.func.value, ast.Name) and len(st.value.args) == 1 and not st.value.keywords \
+                and isinstance(st.value.args[0], (ast.GeneratorExp, ast.ListComp)) and len(st.value.args[0].generators) == 1 \
+                and not st.value.args[0].generators[0].is_async:
+            comp = st.value.args[0]
+            gen = comp.generators[0]
+            tnames = [n.id for n in ast.walk(gen.target) if isinstance(n, ast.Name)]
+            if all(bound_elsewhere.get(t, 0) == 1 for t in tnames) and not any(isinstance(n, (ast.Lambda, ast.GeneratorExp, ast.ListComp, ast.SetComp, ast.DictComp))
+                                                                                for n in ast.walk(comp.elt)):
+                src = (f"for {ast.unparse(gen.target)} in {ast.unparse(gen.iter)}:\n"
+                       + "".join(f"    if not ({ast.unparse(c)}):\n        continue\n" for c in gen.ifs)
+                       + f"    {st.value.func.value.id}.append({ast.unparse(comp.elt)})\n")
+                new = ast.parse(src).body
+                _register(new, st)
+                out.extend(new)
+                continue
         comps = [n for n in ast.walk(st) if isinstance(n, ast.ListComp)] if isinstance(st, ast.Assign) else []
         if not (len(comps) == 1 and len(st.targets) == 1 and isinstance(st.targets[0], ast.Name) and len(comps[0].generators) == 1
                 and not comps[0].generators[0].is_async and isinstance(comps[0].generators[0].target, ast.Name)
@@ -281,7 +347,8 @@ def locate_loop(fi: FuncInfo, which: int = 0, kind=(ast.For, ast.While)):
     walk(fi.node.body, [], [])
     if len(found) <= which:
         raise AnalysisError(f"{fi.qualname}: expected a loop #{which} outside other loops - shape not recognised")
-    return found[which]
+    pre_, loop_, post_, conds_ = found[which]
+    return pre_, normalise_while(fi, loop_), post_, conds_
 
 
 def returned_names(stmts) -> Optional[set]:
@@ -368,12 +435,12 @@ def bind_loop(ev: Evaluator, fr, loop: ast.For, env: Dict[str, Any]) -> Optional
         bindings = dict(inner.bindings)
         bindings[tgt.elts[0].id] = inner.idx.sub(inner.lo).add(startv)
         return LoopBinding(inner.idx, inner.lo, inner.hi, bindings, "enumerate of " + inner.what)
-    # zip(a[k1:m1], a[k2:m2], ...): position p visits a[k1+p], a[k2+p], ... ; all slices must have the same length
+    # zip(a[k1:m1], a[k2:m2], ...): position p visits a[k1+p], a[k2+p], ... ; zip stops with its shortest member (lengths that differ by constants have a known minimum)
     if isinstance(it, ast.Call) and isinstance(it.func, ast.Name) and it.func.id == "zip" and not it.keywords and len(it.args) >= 2 \
             and isinstance(tgt, (ast.Tuple, ast.List)) and len(tgt.elts) == len(it.args) and all(isinstance(e, ast.Name) for e in tgt.elts):
         idx = ev.symbol("pos!" + tn[0])
         bindings = {}
-        count = None
+        lens = []
         for e_t, a_node in zip(tgt.elts, it.args):
             if isinstance(a_node, ast.Call) and isinstance(a_node.func, ast.Name) and a_node.func.id == "range" and not a_node.keywords and 1 <= len(a_node.args) <= 2:
                 ra_ = [fr.expr(x_, env) for x_ in a_node.args]
@@ -381,11 +448,7 @@ def bind_loop(ev: Evaluator, fr, loop: ast.For, env: Dict[str, Any]) -> Optional
                     return None
                 rlo, rhi = (Rat.const(0), ra_[0]) if len(ra_) == 1 else (ra_[0], ra_[1])
                 bindings[e_t.id] = rlo.add(idx)
-                ln = rhi.sub(rlo)
-                if count is None:
-                    count = ln
-                elif not count.equals(ln):
-                    return None
+                lens.append(rhi.sub(rlo))
                 continue
             v = fr.expr(a_node, env)
             cols = v.items if (isinstance(v, Vec) and v.kind == "point") else [v]
@@ -398,15 +461,17 @@ def bind_loop(ev: Evaluator, fr, loop: ast.For, env: Dict[str, Any]) -> Optional
                     els.append(anf.opaque("at", a.args[0], a.args[1].add(idx), array=False))
                 else:
                     els.append(anf.opaque("at", c, idx, array=False))
-                ln = ev.length_of(c)
-                if count is None:
-                    count = ln
-                elif not count.equals(ln):
-                    return None
+                lens.append(ev.length_of(c))
             bindings[e_t.id] = Vec(els, "point") if isinstance(v, Vec) else els[0]
+        count = None
+        for ln in lens:
+            ds = [o.sub(ln).is_const() for o in lens]
+            if all(d is not None and d >= 0 for d in ds):
+                count = ln
+                break
         if count is None:
             return None
-        return LoopBinding(idx, Rat.const(0), count, bindings, f"zip of {len(it.args)} equally long slices")
+        return LoopBinding(idx, Rat.const(0), count, bindings, f"zip of {len(it.args)} members (shortest length {count})")
     # enumerate(arr[, start])
     start = Rat.const(0)
     enum = False
